@@ -48,6 +48,8 @@ def required_cells(tier):
               "plane-tangent-vertex", "plane-tangent-edge", "plane-tangent-face"):
         req["pos:" + s] = 10 if q else 100
     req["helper:longest-segment"] = 100 if q else 3000
+    for hc in ("used-then-moved/receiver", "used-then-moved/returned", "moved/receiver"):
+        req["pose:history/" + hc] = 30
     return req
 
 
@@ -63,7 +65,7 @@ def cases(rng, budget, widx, nworkers, tier):
             yield {"helper": "longest-segment", "pts": [K.add(p, K.mul(d, t)) for t in ts], "label": "helper"}
             continue
         (a, b), label = gen.gen_pair(rng, ka, kb, small=rng.random() < 0.5)
-        yield {"a": a, "b": b, "label": label, "ls": rng.getrandbits(30)}
+        yield C.maybe_hist({"a": a, "b": b, "label": label, "ls": rng.getrandbits(30)}, rng)
 
 
 def _judge_helper(case):
@@ -98,6 +100,7 @@ def judge(case):
     f, body = (a, b) if ka in gen.FLAT else (b, a)
     mu = core.Multi()
     mu.cell("pair:%s,%s" % (ka, kb), "pair:%s,%s->%s" % (ka, kb, C.kname(exp)), "gen:" + case["label"])
+    mu.cell(*C.hist_cell(case))
     for lab in C.classify_f_body(f, body, exp):
         mu.cell("pos:" + lab)
     if body[0] == "PH":
@@ -142,8 +145,10 @@ def _helpers(G, s, body_obj, f, body):
 
 
 def worker_report():
+    _h = {"operand_histories": dict(C.HIST_STATS)}
     d = dict(_diag)
     d.update(_inner.report())
+    d.update(_h)
     return d
 
 
